@@ -119,6 +119,11 @@ class ExprEval:
     def e_List(self, st, node):
         return Lst.of([self.eval(st, e) for e in node.elts])
 
+    def e_Dict(self, st, node):
+        keys = [self.eval(st, k) if k is not None else None for k in node.keys]
+        vals = [self.eval(st, v) for v in node.values]
+        return Opaque("dict", dict(zip([k if isinstance(k, str) else repr(k) for k in keys], vals)))
+
     def e_JoinedStr(self, st, node):
         return Opaque("str", "<f-string>")
 
@@ -326,7 +331,7 @@ class ExprEval:
         if isinstance(base, ModRef):
             return self.module_attr(st, base, name, node)
         if isinstance(base, Arr):
-            if name in ("shape", "ndim", "size", "dtype", "T"):
+            if name in ("shape", "ndim", "size", "dtype", "T", "values", "index"):
                 return self.arr_attr(st, base, name, node)
             return FuncRef("arrmethod", name, self_obj=base, name=name)
         if isinstance(base, Lst):
@@ -344,6 +349,8 @@ class ExprEval:
             raise Unsupported(f"class attribute {ci.name}.{name}")
         if isinstance(base, tuple) and name in ("count", "index"):
             raise Unsupported("tuple method")
+        if isinstance(base, Opaque) and base.tag in ("series", "frame") and name == "values":
+            return base.payload
         if isinstance(base, Opaque) and base.tag == "super":
             obj, ci = base.payload
             mro = self.repo.mro(obj.cls)
